@@ -407,6 +407,7 @@ def run_potentials(ctx, exe):
     npts = 0
     for i, r in enumerate(vecs):
         ctx.count(len(r["pts"]))
+        ctx.traces += 1        # one object stepped through a command sequence (construct, evaluate, setOptParam, SavePotTab)
         npts += len(r["pts"])
         ctx.nontriv(("pot", r["fn"], str(r["lam"]), str(r.get("mn")), str(r.get("xmin")), str(r.get("NI"))))
         if i in crashes:
@@ -490,6 +491,7 @@ def run_splines(ctx, exe):
     for i, r in enumerate(vecs):
         kinds[r["typ"] + ":" + r["mode"]] = kinds.get(r["typ"] + ":" + r["mode"], 0) + 1
         ctx.count(len(r["pts"]))
+        ctx.traces += 1
         ctx.nontriv(("spline", r["typ"], r["mode"], str(r["xs"]), str(r["ys"])))
         if i in crashes:
             ctx.violation("%s:crash" % SPLCLASS[r["typ"]], "driver died: " + crashes[i], r)
